@@ -27,6 +27,7 @@ import numpy as np
 from physt._construction import (
     calculate_1d_bins,
     calculate_nd_bins,
+    extract_1d_array,
     extract_nd_array,
     extract_weights,
 )
@@ -483,7 +484,7 @@ def azimuthal(
             [np.asarray(xdata)[:, np.newaxis], np.asarray(ydata)[:, np.newaxis]], axis=1
         )
     data, array_mask = extract_transformed_data(
-        data, transformed=False, klass=AzimuthalHistogram, dropna=dropna
+        data, transformed=transformed, klass=AzimuthalHistogram, dropna=dropna
     )
     if isinstance(bins, int):
         bins = np.linspace(*range, bins + 1)
@@ -706,11 +707,15 @@ def cylindrical_surface(
         )
 
     transformed_array, array_mask = extract_transformed_data(
-        data, transformed=transformed, klass=CylindricalHistogram, dropna=dropna
+        data,
+        transformed=transformed,
+        klass=CylindricalSurfaceHistogram,
+        dropna=dropna,
     )
 
     if transformed_array is not None:
         if not transformed and radius is None:
+            data = np.asarray(data)
             radius = np.hypot(data[:, 0], data[:, 1])
     if radius is None:
         radius = 1
@@ -726,7 +731,7 @@ def cylindrical_surface(
         **kwargs,
     )
     frequencies, errors2, missed = histogram_nd.calculate_nd_frequencies(
-        data,
+        transformed_array,
         binnings=bin_schemas,
         weights=extract_weights(weights, array_mask=array_mask),
     )
@@ -782,6 +787,9 @@ def extract_transformed_data(
     """Extract and potentially transform data for binning."""
     if data is None:
         return None, None
+    if transformed and np.ndim(data) == 1:
+        # Already transformed coordinates of a 1D histogram (radial, azimuthal)
+        return extract_1d_array(data, dropna=dropna)
     _, array, array_mask = extract_nd_array(data, dim=None, dropna=dropna)
     if not transformed:
         array = klass.transform(array)  # type: ignore
